@@ -242,6 +242,30 @@ func genTCP(rn *runner, r *vc.Rand, thorough bool) {
 			rn.add(tcpLineK(ka, epStr("err", true, -1, false, []string{"6162", "63"}), kb, epStr("eof", false, -1, false, []string{"7172", "73", "74"}), "aabbbb"), "tcp:kinds-all")
 		}
 	}
+	// (1d) one side FAILS (read error, alone or fused with data; refused Write) while the other side is PASSIVE:
+	// it ends only after the relay has signalled the end of the other direction to it. Every interleaving.
+	for _, kOther := range []string{"cw", "same", "split", "none"} {
+		fails := []string{
+			epStr("err", false, -1, false, []string{}),
+			epStr("err", false, -1, false, []string{"6162"}),
+			epStr("err", true, -1, false, []string{"6162", "63"}),
+			epStr("eof", false, -1, false, []string{"6162"}),
+		}
+		for fi, f := range fails {
+			nf := []int{1, 2, 3, 2}[fi]
+			for _, pas := range [][]string{{}, {"7172"}} {
+				p := epStr("hold", false, -1, false, pas)
+				for _, sc := range interleavings('a', 'b', nf, len(pas)+1) {
+					rn.add(tcpLineK(kOther, f, "cw", p, sc), "tcp:passive-peer")
+					rn.add(tcpLineK("cw", p, kOther, f, strings.Map(func(r rune) rune { return 'a' + 'b' - r }, sc)), "tcp:passive-peer")
+				}
+			}
+		}
+		// the passive side refuses a Write: that direction ends with a write error, the passive side must still be told
+		rn.add(tcpLineK(kOther, epStr("eof", false, -1, false, []string{"6162", "63"}), "cw", epStr("hold", false, 0, false, []string{"7172"}), "abab"), "tcp:passive-peer")
+		rn.add(tcpLineK(kOther, epStr("eof", false, -1, false, []string{"6162", "63"}), "cw", epStr("hold", false, 1, false, nil), "aAxb"), "tcp:passive-peer")
+		rn.add(tcpLineK("cw", epStr("hold", false, 0, false, nil), kOther, epStr("err", false, -1, false, []string{"7172"}), "bab"), "tcp:passive-peer")
+	}
 	// (2) faults: refused writes at every index, full close (writes refused once the side's tail was seen)
 	rounds := 500
 	if thorough {
@@ -573,6 +597,34 @@ func genUDP(rn *runner, r *vc.Rand, thorough bool) {
 			for _, sc := range sample(r, mergeAll(st, "uu"), map[bool]int{false: 6, true: 60}[thorough]) {
 				rn.add(udpLine("hold", []string{"6162"}, ttail, false, []string{"78", "797a", "7b"}, 8, "-", []int{3, 4}, sc), "udp:slow-udp-write")
 			}
+		}
+	}
+	// (5d) the REAL asynchronous local socket (mapping.UDPVirtualConn): Write only queues, a send loop delivers later.
+	// Reads that end inside the next record (so the window is compacted over bytes just handed to Write) x sends
+	// delayed past the following reads: every split position, every interleaving of t and s for short streams
+	vsets := [][]string{{"41", "4243"}, {"414141", "42", "434343"}}
+	if thorough {
+		vsets = append(vsets, []string{"41", "z300x7", "4243", "z260x9"})
+	}
+	for _, tds := range vsets {
+		total := encLen(tds)
+		step := 1
+		if total > 40 {
+			step = 37
+		}
+		for p := 1; p < total; p += step {
+			for _, sizes := range [][]int{{p}, {p, 1}} {
+				nt := len(sizes) + 2
+				all := interleavings('t', 's', nt, len(tds))
+				for _, sc := range sample(r, all, map[bool]int{false: 8, true: 40}[thorough]) {
+					line := udpLine("hold", nil, []string{"eof", "err"}[p%2], false, tds, uncut, "-", sizes, sc)
+					rn.add("udpv"+strings.TrimPrefix(line, "udp"), "udpv:async-socket")
+				}
+			}
+		}
+		for cut := 0; cut <= total && total <= 40; cut++ {
+			line := udpLine("hold", nil, "eof", false, tds, cut, "-", []int{3, 2, 4}, "ttstts")
+			rn.add("udpv"+strings.TrimPrefix(line, "udp"), "udpv:async-socket")
 		}
 	}
 	// (6) random mix
